@@ -1,0 +1,216 @@
+//go:build verif
+
+package queue
+
+import (
+	"context"
+	"os"
+	"path/filepath"
+	"sync"
+
+	"github.com/emersion/go-message/textproto"
+	"github.com/emersion/go-smtp"
+	"github.com/foxcpp/maddy/framework/buffer"
+	"github.com/foxcpp/maddy/framework/exterrors"
+	"github.com/foxcpp/maddy/framework/module"
+)
+
+// Trace hooks of the verification harness (/verif, properties C01/C18), compiled only with the
+// build tag "verif" and silent unless VerifTraceSink is set. One event per call the queue makes
+// on its delivery target and on the bounce pipeline, emitted when the call has returned (the
+// queue works on one attempt of a message in one goroutine, so the order of a message's
+// events is the program order); `seq` is assigned under the tracer's mutex.
+
+// VerifTraceSink receives the events (key = spool directory + message ID).
+var VerifTraceSink func(ev map[string]interface{})
+
+var (
+	verifMu  sync.Mutex
+	verifSeq int
+)
+
+func verifClass(err error) string {
+	switch {
+	case err == nil:
+		return "ok"
+	case !exterrors.IsTemporaryOrUnspec(err):
+		return "perm"
+	case exterrors.IsTemporary(err):
+		return "temp"
+	}
+	return "unspec"
+}
+
+func verifEmit(q *Queue, id string, e string, f map[string]interface{}) {
+	if VerifTraceSink == nil {
+		return
+	}
+	verifMu.Lock()
+	defer verifMu.Unlock()
+	verifSeq++
+	ev := map[string]interface{}{"key": q.location + "/" + id, "seq": verifSeq, "e": e}
+	for k, v := range f {
+		ev[k] = v
+	}
+	VerifTraceSink(ev)
+}
+
+func verifAccept(q *Queue, meta *QueueMetadata) {
+	verifEmit(q, meta.MsgMeta.ID, "QAccept", map[string]interface{}{
+		"rcpts": append([]string{}, meta.To...), "mt": q.maxTries, "bounce": q.dsnPipeline != nil,
+		"nullSender": meta.MsgMeta.OriginalFrom == "", "from": meta.From})
+}
+
+func verifEv(q *Queue, meta *QueueMetadata, e string, err error) {
+	f := map[string]interface{}{"mt": q.maxTries, "bounce": q.dsnPipeline != nil,
+		"nullSender": meta.MsgMeta.OriginalFrom == ""}
+	if e == "Quiesced" { // the spool entry was removed: none of its files is left
+		empty := true
+		for _, ext := range []string{".meta", ".header", ".body"} {
+			if _, err := os.Stat(filepath.Join(q.location, meta.MsgMeta.ID+ext)); err == nil {
+				empty = false
+			}
+		}
+		f["spoolEmpty"] = empty
+	} else {
+		f["res"] = verifClass(err)
+	}
+	verifEmit(q, meta.MsgMeta.ID, e, f)
+}
+
+type verifDelivery struct {
+	q     *Queue
+	id    string
+	inner module.Delivery
+	acc   []string
+}
+
+type verifPartialDelivery struct{ *verifDelivery }
+
+func verifWrapDelivery(q *Queue, meta *QueueMetadata, d module.Delivery) module.Delivery {
+	if VerifTraceSink == nil {
+		return d
+	}
+	w := &verifDelivery{q: q, id: meta.MsgMeta.ID, inner: d}
+	if _, ok := d.(module.PartialDelivery); ok {
+		return verifPartialDelivery{w}
+	}
+	return w
+}
+
+func (d *verifDelivery) AddRcpt(ctx context.Context, rcptTo string, opts smtp.RcptOptions) error {
+	err := d.inner.AddRcpt(ctx, rcptTo, opts)
+	if err == nil {
+		d.acc = append(d.acc, rcptTo)
+	}
+	verifEmit(d.q, d.id, "TAddRcpt", map[string]interface{}{"r": rcptTo, "res": verifClass(err)})
+	return err
+}
+
+func (d *verifDelivery) Body(ctx context.Context, header textproto.Header, body buffer.Buffer) error {
+	err := d.inner.Body(ctx, header, body)
+	verifEmit(d.q, d.id, "TBody", map[string]interface{}{"res": verifClass(err)})
+	return err
+}
+
+type verifCollector struct {
+	mu    sync.Mutex
+	inner module.StatusCollector
+	st    map[string]string
+}
+
+func (c *verifCollector) SetStatus(rcptTo string, err error) {
+	c.mu.Lock()
+	c.st[rcptTo] = verifClass(err)
+	c.mu.Unlock()
+	c.inner.SetStatus(rcptTo, err)
+}
+
+func (d verifPartialDelivery) BodyNonAtomic(ctx context.Context, c module.StatusCollector, header textproto.Header, body buffer.Buffer) {
+	vc := &verifCollector{inner: c, st: map[string]string{}}
+	d.inner.(module.PartialDelivery).BodyNonAtomic(ctx, vc, header, body)
+	st := map[string]string{}
+	for _, r := range d.acc { // a recipient without a status call was delivered
+		st[r] = "ok"
+	}
+	extra := map[string]string{}
+	vc.mu.Lock()
+	for r, v := range vc.st {
+		if _, ok := st[r]; ok {
+			st[r] = v
+		} else {
+			extra[r] = v
+		}
+	}
+	vc.mu.Unlock()
+	verifEmit(d.q, d.id, "TBodyNA", map[string]interface{}{"st": st, "extra": extra})
+}
+
+func (d *verifDelivery) Abort(ctx context.Context) error {
+	err := d.inner.Abort(ctx)
+	verifEmit(d.q, d.id, "TAbort", nil)
+	return err
+}
+
+func (d *verifDelivery) Commit(ctx context.Context) error {
+	err := d.inner.Commit(ctx)
+	verifEmit(d.q, d.id, "TCommit", map[string]interface{}{"res": verifClass(err)})
+	return err
+}
+
+// verifDSN follows one hand-over of a failure report to the bounce pipeline and emits one
+// "Dsn" event when it ends: stage = "ok" or the stage that failed.
+type verifDSN struct {
+	q      *Queue
+	id     string
+	inner  module.Delivery
+	failed []string
+	stage  string
+}
+
+func verifWrapDSN(q *Queue, meta *QueueMetadata, failed []string, d module.Delivery) module.Delivery {
+	if VerifTraceSink == nil {
+		return d
+	}
+	if d == nil { // Start of the bounce pipeline failed
+		verifEmit(q, meta.MsgMeta.ID, "Dsn", map[string]interface{}{"stage": "start", "rcpts": append([]string{}, failed...)})
+		return d
+	}
+	return &verifDSN{q: q, id: meta.MsgMeta.ID, inner: d, failed: append([]string{}, failed...)}
+}
+
+func (d *verifDSN) end(stage string) {
+	verifEmit(d.q, d.id, "Dsn", map[string]interface{}{"stage": stage, "rcpts": d.failed})
+}
+
+func (d *verifDSN) AddRcpt(ctx context.Context, rcptTo string, opts smtp.RcptOptions) error {
+	err := d.inner.AddRcpt(ctx, rcptTo, opts)
+	if err != nil {
+		d.stage = "rcpt"
+	}
+	return err
+}
+
+func (d *verifDSN) Body(ctx context.Context, header textproto.Header, body buffer.Buffer) error {
+	err := d.inner.Body(ctx, header, body)
+	if err != nil {
+		d.stage = "body"
+	}
+	return err
+}
+
+func (d *verifDSN) Abort(ctx context.Context) error {
+	err := d.inner.Abort(ctx)
+	d.end(d.stage)
+	return err
+}
+
+func (d *verifDSN) Commit(ctx context.Context) error {
+	err := d.inner.Commit(ctx)
+	if err != nil {
+		d.stage = "commit" // Abort follows and ends the hand-over
+		return err
+	}
+	d.end("ok")
+	return err
+}
